@@ -345,7 +345,7 @@ func DrawVerifyCase(t *rapid.T) VerifyCase {
 	d, _, _ := PrivKey(t, "d")
 	px, py, pub := Pub(d)
 	cls := gen.Pick(t, "vclass", "valid", "valid-shaped", "bitflip", "bitflip", "length", "r=0", "s=0", "s=n", "r+s=n", "R=inf", "r+n", "s+n",
-		"x+p", "y>=p", "offcurve", "negY", "zeroKey", "garbage", "swap", "r>=n", "e+n", "chosen-R", "chosen-R", "chosen-R", "modshift", "modshift")
+		"x+p", "y>=p", "offcurve", "negY", "zeroKey", "garbage", "swap", "r>=n", "e+n", "chosen-R", "chosen-R", "chosen-R", "modshift", "modshift", "midway-infinity", "midway-infinity")
 	// a valid signature to start from
 	mk := func(shaped bool) (e, rb, sb []byte) {
 		for {
@@ -587,6 +587,33 @@ func DrawVerifyCase(t *rapid.T) VerifyCase {
 		if gen.Bool(t, "validKey") {
 			c.Px, c.Py = px, py
 		}
+	case "midway-infinity":
+		// A VALID signature whose public key is solved so that, while the verifier computes [s]G + [t]P, the accumulator of its
+		// interleaved loop is the point at infinity right after a chosen inner addition (see MidwayInfinity).
+		sv, tv := uni(), uni()
+		if gen.Bool(t, "small-t") {
+			tv = new(big.Int).SetBytes(gen.RandBytes(r, gen.Uniform(t, "t-bytes", 1, 4)))
+			if tv.Sign() == 0 {
+				tv.SetInt64(5)
+			}
+		}
+		dd, _, ok := MidwayInfinity(t, "mid", sv, tv)
+		rr := modn(new(big.Int).Sub(tv, sv))
+		if !ok || rr.Sign() == 0 {
+			c.E, c.R, c.S = mk(false)
+			c.Class, c.Special = "valid", false
+			break
+		}
+		var pk sm2ref.Point
+		c.Px, c.Py, pk = Pub(dd)
+		R := sm2ref.Add(sm2ref.Mul(sv, sm2ref.G), sm2ref.Mul(tv, pk))
+		if R.Inf {
+			c.E, c.R, c.S = mk(false)
+			c.Px, c.Py = px, py
+			c.Class, c.Special = "valid", false
+			break
+		}
+		c.E, c.R, c.S = gen.Pad32(modn(new(big.Int).Sub(rr, R.X))), gen.Pad32(rr), gen.Pad32(sv)
 	case "modshift":
 		// A valid signature with ONE field moved by a difference of the moduli in play (n, p, 2^256): the values an implementation
 		// confusing two reductions (mod n vs mod p vs mod 2^256, or a wrapped second candidate for x_R) would treat as equivalent.
@@ -685,4 +712,73 @@ func NearMissY(t *rapid.T, label string, x *big.Int) (y *big.Int, ok bool) {
 		}
 	}
 	return nil, false
+}
+
+// MidwayInfinity models the EVALUATION ORDER of the library's double-scalar routine [g]G + [t]P (interleaved: from position 256 down
+// to 0 double, add the 6-3-14 comb entries of g for positions below 14, add the signed width-4 NAF digit of t; then the remainder
+// table) and returns a private key d such that, for P = [d]G, the accumulator is THE POINT AT INFINITY right after a chosen inner
+// step (a comb addition or a NAF addition) — although the final result is an ordinary point. A formula that is not complete for an
+// accumulator at infinity in the middle of the loop is reached only this way. The model is used to CHOOSE inputs; the oracle stays
+// the reference multiplication, so a library that evaluates in another order just sees ordinary inputs.
+func MidwayInfinity(t *rapid.T, label string, g, tt *big.Int) (d *big.Int, where string, ok bool) {
+	// signed NAF of t with digits odd, |digit| < 16, at least 4 zeros after a non-zero digit
+	naf := make([]int64, 258)
+	k := new(big.Int).Set(tt)
+	for i := 0; k.Sign() > 0 && i < 258; i++ {
+		if k.Bit(0) == 1 {
+			dgt := int64(new(big.Int).And(k, big.NewInt(31)).Int64())
+			if dgt >= 16 {
+				dgt -= 32
+			}
+			naf[i] = dgt
+			k.Sub(k, big.NewInt(dgt))
+		}
+		k.Rsh(k, 1)
+	}
+	type ev struct {
+		alpha, beta *big.Int
+		name        string
+	}
+	var evs []ev
+	alpha, beta := new(big.Int), new(big.Int)
+	for i := 256; i >= 0; i-- {
+		alpha.Lsh(alpha, 1)
+		beta.Lsh(beta, 1)
+		if i < 14 {
+			for j := 0; j < 3; j++ {
+				v := new(big.Int)
+				for b := 0; b < 6; b++ {
+					if g.Bit(b*42+i+j*14+4) == 1 {
+						v.SetBit(v, b*42+j*14+4, 1)
+					}
+				}
+				if v.Sign() != 0 {
+					alpha.Add(alpha, v)
+					evs = append(evs, ev{new(big.Int).Set(alpha), new(big.Int).Set(beta), fmt.Sprintf("after the comb addition at position %d, sub-table %d", i, j)})
+				}
+			}
+		}
+		if naf[i] != 0 {
+			beta.Add(beta, big.NewInt(naf[i]))
+			evs = append(evs, ev{new(big.Int).Set(alpha), new(big.Int).Set(beta), fmt.Sprintf("after the NAF addition at position %d", i)})
+		}
+	}
+	var cands []ev
+	for _, e := range evs[:max(len(evs)-1, 0)] { // not the very last event: something must follow
+		a, b := new(big.Int).Mod(e.alpha, N), new(big.Int).Mod(e.beta, N)
+		if a.Sign() != 0 && b.Sign() != 0 {
+			cands = append(cands, e)
+		}
+	}
+	if len(cands) == 0 {
+		return nil, "", false
+	}
+	// prefer late events (positions below 14, where comb additions follow)
+	e := cands[len(cands)-1-gen.Uniform(t, label+".event", 0, min(len(cands)-1, 40))]
+	d = new(big.Int).ModInverse(new(big.Int).Mod(e.beta, N), N)
+	d.Mul(d, e.alpha).Neg(d).Mod(d, N)
+	if d.Sign() == 0 || d.Cmp(NM1) >= 0 {
+		return nil, "", false
+	}
+	return d, e.name, true
 }
